@@ -619,7 +619,7 @@ def main(chk: Check):
                  "files": {k: tuple(v) for k, v in w["files"].items()}}
         add(world, [(k, v) for k, v in d["toks"]], d["tty"], "corpus")
 
-    n_dist = chk.n(260, 2400)
+    n_dist = chk.n(220, 2400)
     for i in range(n_dist):
         world = gen_world(rng, chk.thorough)
         toks, tty = gen_argv(rng, world)
@@ -675,7 +675,7 @@ def main(chk: Check):
     with cf.ThreadPoolExecutor(max_workers=2) as ex:      # the two streams side by side
         fr = ex.submit(chk.coq_eval, "dist", IMPORTS, "input", cases,
                        ["mismatches run cases", "where_ (fun i r => negb (spec_ok i r)) cases"],
-                       shard=chk.n(160, 250))
+                       shard=250)
         fq = ex.submit(chk.coq_eval, "qty", IMPORTS, "bool * str", qc2, ["mismatches run_qty cases"])
         r, rq = fr.result(), fq.result()
     spec_bad = []
